@@ -117,11 +117,11 @@ func wireSides(p *Prog) (enc, dec map[*ssa.Function]bool) {
 	ws := resolveSide(p, "Writer")
 	rs := resolveSide(p, "Reader")
 	stop := func(f *ssa.Function) bool { return !p.InModule(f) || p.Rel(f) == "app" }
-	encRoots := []*ssa.Function{ws.fn, ws.parent, p.Method("io", "Writer", "Write"), p.Method("io", "Writer", "Close"), p.Func("io", "createWriterWithCtx")}
+	encRoots := []*ssa.Function{ws.fn, ws.parent, ws.entry, p.Method("io", "Writer", "Write"), p.Method("io", "Writer", "Close"), p.Func("io", "createWriterWithCtx")}
 	if wh := p.MethodOpt("io", "Writer", "writeHeader"); wh != nil {
 		encRoots = append(encRoots, wh)
 	}
-	decRoots := []*ssa.Function{rs.fn, rs.parent, p.Method("io", "Reader", "Read"), p.Func("io", "createReaderWithCtx")}
+	decRoots := []*ssa.Function{rs.fn, rs.parent, rs.entry, p.Method("io", "Reader", "Read"), p.Func("io", "createReaderWithCtx")}
 	if rh := p.MethodOpt("io", "Reader", "readHeader"); rh != nil {
 		decRoots = append(decRoots, rh)
 	}
@@ -274,6 +274,55 @@ func literalTables(p *Prog) []wireTable {
 func censusOf(p *Prog, f *ssa.Function) map[[2]string]int {
 	out := map[[2]string]int{}
 	seen := map[*ssa.Function]bool{}
+	// constants handed to a same-package callee as arguments count where the callee uses the parameter (a seed or a
+	// width that became a parameter of an extracted helper is still the same wire arithmetic)
+	bound := map[*ssa.Parameter][]*ssa.Const{}
+	inClosure := func(callee *ssa.Function) bool {
+		return FnPkg(callee) == FnPkg(f) && callee.Signature.Recv() == nil || (callee.Signature.Recv() != nil && FnPkg(callee) == FnPkg(f) && f.Signature.Recv() != nil && namedOf(callee.Signature.Recv().Type()) == namedOf(f.Signature.Recv().Type()))
+	}
+	preSeen := map[*ssa.Function]bool{}
+	var pre func(g *ssa.Function)
+	pre = func(g *ssa.Function) {
+		if preSeen[g] || g.Blocks == nil {
+			return
+		}
+		preSeen[g] = true
+		for _, an := range g.AnonFuncs {
+			pre(an)
+		}
+		eachInstr(g, func(i ssa.Instruction) {
+			ci, ok := i.(ssa.CallInstruction)
+			if !ok {
+				return
+			}
+			c := ci.Common()
+			callee := c.StaticCallee()
+			if callee == nil || !p.InModule(callee) || !inClosure(callee) {
+				return
+			}
+			for k, a := range c.Args {
+				if cc, ok := a.(*ssa.Const); ok && cc.Value != nil && cc.Value.Kind() == constant.Int && k < len(callee.Params) {
+					bound[callee.Params[k]] = append(bound[callee.Params[k]], cc)
+				}
+			}
+			pre(callee)
+		})
+	}
+	pre(f)
+	constsOf := func(o ssa.Value) []*ssa.Const {
+		if c, ok := o.(*ssa.Const); ok {
+			return []*ssa.Const{c}
+		}
+		if pr, ok := o.(*ssa.Parameter); ok {
+			return bound[pr]
+		}
+		if cv, ok := o.(*ssa.Convert); ok {
+			if pr, ok := cv.X.(*ssa.Parameter); ok {
+				return bound[pr]
+			}
+		}
+		return nil
+	}
 	var visit func(g *ssa.Function)
 	visit = func(g *ssa.Function) {
 		if seen[g] || g.Blocks == nil {
@@ -287,8 +336,10 @@ func censusOf(p *Prog, f *ssa.Function) map[[2]string]int {
 			switch x := i.(type) {
 			case *ssa.BinOp:
 				for _, o := range []ssa.Value{x.X, x.Y} {
-					if c, ok := o.(*ssa.Const); ok && c.Value != nil && c.Value.Kind() == constant.Int {
-						out[[2]string{x.Op.String(), c.Value.ExactString()}]++
+					for _, c := range constsOf(o) {
+						if c.Value != nil && c.Value.Kind() == constant.Int {
+							out[[2]string{x.Op.String(), c.Value.ExactString()}]++
+						}
 					}
 				}
 			case ssa.CallInstruction:
@@ -296,9 +347,11 @@ func censusOf(p *Prog, f *ssa.Function) map[[2]string]int {
 				if op, ok := isBitstreamOp(p, c); ok {
 					name := op[strings.LastIndex(op, ".")+1:]
 					for k, a := range c.Args {
-						if cc, ok := a.(*ssa.Const); ok && cc.Value != nil && cc.Value.Kind() == constant.Int {
-							if c.IsInvoke() || k > 0 {
-								out[[2]string{name, cc.Value.ExactString()}]++
+						for _, cc := range constsOf(a) {
+							if cc.Value != nil && cc.Value.Kind() == constant.Int {
+								if c.IsInvoke() || k > 0 {
+									out[[2]string{name, cc.Value.ExactString()}]++
+								}
 							}
 						}
 					}
